@@ -22,8 +22,8 @@ forest, target, key / index / slice / rank list, offered value (plain nested val
 nodes that are moved or copied, Refs), notification on or off — maps a forest in which every
 non-root node believes its actual parent and path to such a forest. (No admissibility hypothesis
 is needed for this half of the invariant; uniqueness of node objects is the other half.) -/
-theorem C01_step_cfg {lcs nb : Bool} {scp : Option Bool} (f : Forest) (n : Bool) (op : Op) (hf : f.ok = true) :
-    (stepA (Cfg.fixedWith lcs nb scp) f n op).forest.ok = true := by
+theorem C01_step_cfg {lcs nb : Bool} {scp : Option Bool} {sat : Bool} (f : Forest) (n : Bool) (op : Op) (hf : f.ok = true) :
+    (stepA (Cfg.fixedWith lcs nb scp sat) f n op).forest.ok = true := by
   unfold stepA
   split
   · exact hf
@@ -34,7 +34,7 @@ theorem C01_step_cfg {lcs nb : Bool} {scp : Option Bool} (f : Forest) (n : Bool)
     cases v with
     | node kind sl aw pt items =>
       simp only [step]
-      have hv := evalVE_spec (Cfg.fixedWith lcs nb scp) none (.node kind sl aw pt items) f none false false [] hf
+      have hv := evalVE_spec (Cfg.fixedWith lcs nb scp sat) none (.node kind sl aw pt items) f none false false [] hf
       exact addRoot_ok _ _ (ok_of_subset hf hv.2) (okRoot_of_okAt hv.1)
     | atom a => simp only [step]; exact hf
     | fresh => simp only [step]; exact hf
@@ -131,10 +131,13 @@ theorem C01_step_cfg {lcs nb : Bool} {scp : Option Bool} (f : Forest) (n : Bool)
           · split
             · exact hf
             · next start stop stp hidx =>
-              have hp0 := slicePrepare_ok (lcs := lcs) (nb := nb) (sp := scp) m vs f 0 hf
+              split
+              · exact hf
+              have hp0 := slicePrepare_ok (lcs := lcs) (nb := nb) (sp := scp) (sat := sat) m
+                (sliceIx (Cfg.fixedWith lcs nb scp sat) start stp) vs f 0 hf
               have run_ok : ∀ (st sp : Int) (repl : List (Bool × VE)),
-                  (match sliceLoop (Cfg.fixedWith lcs nb scp) t st sp (slicePrepare (Cfg.fixedWith lcs nb scp) m f 0 vs).1 0 repl false with
-                    | .error e => (⟨(slicePrepare (Cfg.fixedWith lcs nb scp) m f 0 vs).1, .err e⟩ : Res)
+                  (match sliceLoop (Cfg.fixedWith lcs nb scp sat) t st sp (slicePrepare (Cfg.fixedWith lcs nb scp sat) m (sliceIx (Cfg.fixedWith lcs nb scp sat) start stp) f 0 vs).1 0 repl false with
+                    | .error e => (⟨(slicePrepare (Cfg.fixedWith lcs nb scp sat) m (sliceIx (Cfg.fixedWith lcs nb scp sat) start stp) f 0 vs).1, .err e⟩ : Res)
                     | .ok (f', upd) => ⟨if (n && upd) = true then notify f' [m.id] else f', .ok⟩).forest.ok = true := by
                 intro st sp repl
                 split
@@ -326,7 +329,7 @@ theorem C01_step_cfg {lcs nb : Bool} {scp : Option Bool} (f : Forest) (n : Bool)
           · exact hf
           · next k c hlast =>
             have h1 : ((f.mapAt t (fun _ xs => eraseKey k xs)).addRoot
-                (if (Cfg.fixedWith lcs nb scp).detachOnRemove = true then detachFrom .dict c else c)).ok = true := by
+                (if (Cfg.fixedWith lcs nb scp sat).detachOnRemove = true then detachFrom .dict c else c)).ok = true := by
               apply addRoot_ok _ _ (mapAt_ok f t _ (erase_local t k) hf)
               simp only [Cfg.fixedWith, if_true]
               have hmem : (k, c) ∈ its := List.mem_of_getLast? hlast
@@ -352,12 +355,12 @@ theorem C01_step_cfg {lcs nb : Bool} {scp : Option Bool} (f : Forest) (n : Bool)
 /-- … in particular on the patched tree … -/
 theorem C01_step (f : Forest) (n : Bool) (op : Op) (hf : f.ok = true) :
     (stepA Cfg.patched f n op).forest.ok = true :=
-  C01_step_cfg (lcs := true) (nb := true) (scp := none) f n op hf
+  C01_step_cfg (lcs := true) (nb := true) (scp := none) (sat := false) f n op hf
 
 /-- … and for a call that runs inside `with pg.allow_partial(b):` (configurations with a scope). -/
 theorem C01_step_scoped (b : Bool) (f : Forest) (n : Bool) (op : Op) (hf : f.ok = true) :
     (stepA { Cfg.patched with scopePartial := some b } f n op).forest.ok = true :=
-  C01_step_cfg (lcs := true) (nb := true) (scp := some b) f n op hf
+  C01_step_cfg (lcs := true) (nb := true) (scp := some b) (sat := false) f n op hf
 
 /-- **No aliasing**: from a well-formed forest, no call on a tree with the belief fixes ever has
 to put one node object in two places (the model's mark `aliased` stays false). The only way to
@@ -366,8 +369,8 @@ destination; in a well-formed forest that node *is* the occupant of the destinat
 every write primitive catches that case first: the identity test `old_value is value`
 (replacement, dict store), the copy of an own element (insertion, F79), the absence of an
 occupant (append), "returned as it is" (first pass of a slice assignment). -/
-theorem C01_no_alias {lcs nb : Bool} {scp : Option Bool} (f : Forest) (n : Bool) (op : Op) (hf : f.wf = true)
-    (hk : wellKeyed op = true) : (stepA (Cfg.fixedWith lcs nb scp) f n op).forest.aliased = false :=
+theorem C01_no_alias {lcs nb : Bool} {scp : Option Bool} {sat : Bool} (f : Forest) (n : Bool) (op : Op) (hf : f.wf = true)
+    (hk : wellKeyed op = true) : (stepA (Cfg.fixedWith lcs nb scp sat) f n op).forest.aliased = false :=
   stepA_unal f n op hf hk
 
 /-- **C01, full step theorem**: on every tree with the belief fixes (in particular the patched
@@ -377,20 +380,20 @@ two places, nothing in flight) to a well-formed forest. The only hypothesis besi
 the call is a well-formed *encoding* (`wellKeyed`: a dict literal has distinct keys — Python
 cannot write anything else). No admissibility hypothesis: a diverging call (F30) has no
 after-state (`stepA` leaves the forest alone). -/
-theorem C01_step_Full_cfg {lcs nb : Bool} {scp : Option Bool} (f : Forest) (n : Bool) (op : Op) (hf : f.wf = true)
-    (hk : wellKeyed op = true) : (stepA (Cfg.fixedWith lcs nb scp) f n op).forest.wf = true := by
-  have hal := C01_no_alias (lcs := lcs) (nb := nb) (scp := scp) f n op hf hk
+theorem C01_step_Full_cfg {lcs nb : Bool} {scp : Option Bool} {sat : Bool} (f : Forest) (n : Bool) (op : Op) (hf : f.wf = true)
+    (hk : wellKeyed op = true) : (stepA (Cfg.fixedWith lcs nb scp sat) f n op).forest.wf = true := by
+  have hal := C01_no_alias (lcs := lcs) (nb := nb) (scp := scp) (sat := sat) f n op hf hk
   rw [wf_iff] at hf ⊢
   exact ⟨C01_step_cfg f n op hf.1, stepA_inv _ f n op hf.2.1 hk hal, hal, stepA_pool _ f n op hf.2.2.2⟩
 
 theorem C01_step_Full (f : Forest) (n : Bool) (op : Op) (hf : f.wf = true) (hk : wellKeyed op = true) :
     (stepA Cfg.patched f n op).forest.wf = true :=
-  C01_step_Full_cfg (lcs := true) (nb := true) (scp := none) f n op hf hk
+  C01_step_Full_cfg (lcs := true) (nb := true) (scp := none) (sat := false) f n op hf hk
 
 /-- the full invariant for a call inside `with pg.allow_partial(b):`. -/
 theorem C01_step_Full_scoped (b : Bool) (f : Forest) (n : Bool) (op : Op) (hf : f.wf = true) (hk : wellKeyed op = true) :
     (stepA { Cfg.patched with scopePartial := some b } f n op).forest.wf = true :=
-  C01_step_Full_cfg (lcs := true) (nb := true) (scp := some b) f n op hf hk
+  C01_step_Full_cfg (lcs := true) (nb := true) (scp := some b) (sat := false) f n op hf hk
 
 /-- the representation half (ids distinct and bounded, key shapes) needs none of the fixes: it is
 preserved by every operation on *every* configuration of the tree — the defects F02 / F03 / F78 /
@@ -411,8 +414,8 @@ same holds after every operation of `ValueFree` — in particular the values tha
 `remove`, `clear`, `popitem` and slice deletion take out of a container become roots of the
 forest whose believed parent is none (and they are gone from the payload: `dropAll`,
 `rawDelList`, `rawDelMany`, `eraseKey`). -/
-theorem C01_removed_detached_cfg {lcs nb : Bool} {scp : Option Bool} (f : Forest) (n : Bool) (op : Op) (hf : f.rootsFree = true) (hp : ValueFree op = true) :
-    (stepA (Cfg.fixedWith lcs nb scp) f n op).forest.rootsFree = true := by
+theorem C01_removed_detached_cfg {lcs nb : Bool} {scp : Option Bool} {sat : Bool} (f : Forest) (n : Bool) (op : Op) (hf : f.rootsFree = true) (hp : ValueFree op = true) :
+    (stepA (Cfg.fixedWith lcs nb scp sat) f n op).forest.rootsFree = true := by
   unfold stepA
   split
   · exact hf
@@ -562,7 +565,7 @@ theorem C01_removed_detached_cfg {lcs nb : Bool} {scp : Option Bool} (f : Forest
           · exact hf
           · next k c hlast =>
             have h1 : ((f.mapAt t (fun _ xs => eraseKey k xs)).addRoot
-                (if (Cfg.fixedWith lcs nb scp).detachOnRemove = true then detachFrom .dict c else c)).rootsFree = true := by
+                (if (Cfg.fixedWith lcs nb scp sat).detachOnRemove = true then detachFrom .dict c else c)).rootsFree = true := by
               apply addRoot_free _ _ (mapAt_free f t _ hf)
               simp only [Cfg.fixedWith, if_true]
               exact detachFrom_parentless _ _
@@ -585,7 +588,7 @@ theorem C01_removed_detached_cfg {lcs nb : Bool} {scp : Option Bool} (f : Forest
 
 theorem C01_removed_detached (f : Forest) (n : Bool) (op : Op) (hf : f.rootsFree = true) (hp : ValueFree op = true) :
     (stepA Cfg.patched f n op).forest.rootsFree = true :=
-  C01_removed_detached_cfg (lcs := true) (nb := true) (scp := none) f n op hf hp
+  C01_removed_detached_cfg (lcs := true) (nb := true) (scp := none) (sat := false) f n op hf hp
 
 /-! ## Histories -/
 
@@ -724,6 +727,37 @@ theorem C01_fixed_F78 :
     let f := (stepA Cfg.patched fList true (.delItem 0 (.i 0))).forest
     divergent f (.setItem 1 (.s 0) (.ref 0)) = false ∧
       (stepA Cfg.patched f true (.setItem 1 (.s 0) (.ref 0))).forest.wf = true := by decide
+
+/-- F225: `l = pg.List([1, 2]); x = pg.Dict(); l[1:2] = [x]`. On the tree as it is the value is
+formalized for index 0 and then stored at position 1: a copy goes into the list, and `x` stays a
+root that claims `l` as its parent (the state is still `wf`: nothing is demanded of the beliefs
+of a root — which is why `rootsFree` is a separate theorem, and why it is false here). With the
+fix (`sliceAtTarget`) `x` itself is stored and no root claims a parent. -/
+def fSlice : Forest :=
+  (stepA Cfg.patched (stepA Cfg.patched Forest.empty true (.new (veList [.atom (.int 1), .atom (.int 2)]))).forest
+    true (.new (veDict []))).forest
+
+def cfgF225 : Cfg := Cfg.fixedWith true true none true
+
+theorem C01_counterexample_F225 :
+    fSlice.rootsFree = true ∧
+    (stepA Cfg.patched fSlice true (.lSetSlice 0 (some 1) (some 2) none [.ref 1])).forest.rootsFree = false ∧
+    ((stepA Cfg.patched fSlice true (.lSetSlice 0 (some 1) (some 2) none [.ref 1])).forest.roots.length = 2) := by
+  decide
+
+/-- … also a rejected extended-slice assignment (`l[0:2:2] = [x, 3]`, ValueError) leaves `x` in
+that state. -/
+theorem C01_counterexample_F225_rejected :
+    (stepA Cfg.patched fSlice true (.lSetSlice 0 (some 0) (some 2) (some 2) [.ref 1, .atom (.int 3)])).out = .err .value ∧
+    (stepA Cfg.patched fSlice true (.lSetSlice 0 (some 0) (some 2) (some 2) [.ref 1, .atom (.int 3)])).forest.rootsFree = false := by
+  decide
+
+theorem C01_fixed_F225 :
+    (stepA cfgF225 fSlice true (.lSetSlice 0 (some 1) (some 2) none [.ref 1])).forest.rootsFree = true ∧
+    (stepA cfgF225 fSlice true (.lSetSlice 0 (some 1) (some 2) none [.ref 1])).forest.roots.length = 1 ∧
+    (stepA cfgF225 fSlice true (.lSetSlice 0 (some 1) (some 2) none [.ref 1])).forest.wf = true ∧
+    (stepA cfgF225 fSlice true (.lSetSlice 0 (some 0) (some 2) (some 2) [.ref 1, .atom (.int 3)])).forest.rootsFree = true := by
+  decide
 
 /-- F30 (known): `d = pg.Dict(k0=pg.Dict()); d.k0.k1 = d` — the model has no after-state. -/
 def fNest : Forest := (stepA Cfg.patched Forest.empty true (.new (veDict [(.s 0, veDict [])]))).forest
